@@ -40,6 +40,12 @@ def mutatorAtomic (facts : List AccessFact) (fn : Nat) : Bool :=
 /-- Subscribe, SubscribeContext, Unsubscribe, Clear and ClearAll are each one atomic step on the registry -/
 def RegistryOpsAtomic (facts : List AccessFact) : Bool := registryMutators.all (mutatorAtomic facts)
 
+/-- `MemoryStore.Append` reserves the offset and inserts the record inside ONE write-locked critical section -/
+def MemAppendAtomic (facts : List AccessFact) : Bool :=
+  match facts.filter (fun a => a.fn == code_memstore_append) with
+  | [] => false
+  | a :: rest => a.csec != 0 && (a :: rest).all (fun b => b.guardMode == 2 && b.csec == a.csec) && (a :: rest).any (·.write)
+
 def rankOf (l : Nat) : Nat := (lockRank.findIdx? (· == l)).getD lockRank.length
 
 /-- locks are only ever nested along the intended order -/
